@@ -42,6 +42,8 @@ type Val struct {
 	// for closures created in the current function
 	Fn       interface{} // *ssa.Function for MakeClosure / function values
 	Src      *Addr       // heap address the value was loaded from (provenance)
+	Max      *big.Int    // known upper bound of a non-negative scalar (bit-operation linearisation)
+	TZ       int         // known number of trailing zero bits
 	Bindings []Val
 }
 
